@@ -49,15 +49,15 @@ type Val struct {
 	M []Entry
 }
 
-func Null() Val            { return Val{K: KNull} }
-func Bool(b bool) Val      { return Val{K: KBool, B: b} }
-func Int(i int64) Val      { return Val{K: KInt, I: i} }
-func Float(f float64) Val  { return Val{K: KFloat, F: f} }
-func String(s string) Val  { return Val{K: KString, S: s} }
-func Bytes(b []byte) Val   { return Val{K: KBytes, S: string(b)} }
-func Link(cid []byte) Val  { return Val{K: KLink, S: string(cid)} }
-func List(xs ...Val) Val   { return Val{K: KList, L: xs} }
-func Map(es ...Entry) Val  { return Val{K: KMap, M: es} }
+func Null() Val               { return Val{K: KNull} }
+func Bool(b bool) Val         { return Val{K: KBool, B: b} }
+func Int(i int64) Val         { return Val{K: KInt, I: i} }
+func Float(f float64) Val     { return Val{K: KFloat, F: f} }
+func String(s string) Val     { return Val{K: KString, S: s} }
+func Bytes(b []byte) Val      { return Val{K: KBytes, S: string(b)} }
+func Link(cid []byte) Val     { return Val{K: KLink, S: string(cid)} }
+func List(xs ...Val) Val      { return Val{K: KList, L: xs} }
+func Map(es ...Entry) Val     { return Val{K: KMap, M: es} }
 func E(k string, v Val) Entry { return Entry{k, v} }
 
 // Uint builds an integer from a uint64: KInt when it fits int64, else KUint.
